@@ -15,7 +15,7 @@
 
    Units: cpu milli-cores, mem MB, gpu whole devices, frac 1/100 of a device, gpuMem MiB,
    queue GPU quantities in milli-GPUs; indices are 1-based, 0 = none.                    *)
-EXTENDS Integers, Sequences, FiniteSets, FiniteSetsExt, TLC
+EXTENDS Integers, Sequences, FiniteSets, FiniteSetsExt, SequencesExt, TLC
 
 VARIABLES scen, S, resv, D, qi, cyc, action, doneActs, failed, hist, panic
 
@@ -196,19 +196,19 @@ QCpu(q, i, np) == Sum({p \in ChargedAfter(i) : InSubtree(p, q) /\ (np => J(JobOf
 QMem(q, i, np) == Sum({p \in ChargedAfter(i) : InSubtree(p, q) /\ (np => J(JobOf(p)).preempt = 0)}, LAMBDA p : P(p).mem)
 Raises(i) == (BindOK(i) \/ Piped(i)) /\ D[i].p \notin ChargedAfter(i - 1)
 \* only the newest decision needs checking in each state (earlier ones were checked in earlier states)
-Last == Len(D)
+LastD == Len(D)
 C08_Limit ==
-  (Last > 0 /\ Raises(Last)) =>
-    \A q \in Ancestors(J(JobOf(D[Last].p)).queue) :
-      /\ (Q(q).gl # -1 /\ GpuMilli(D[Last].p) > 0) => QGpu(q, Last, FALSE) <= Q(q).gl
-      /\ (Q(q).cl # -1 /\ EffCpu(D[Last].p) > 0)   => QCpu(q, Last, FALSE) <= Q(q).cl
-      /\ (Q(q).ml # -1 /\ P(D[Last].p).mem > 0)   => QMem(q, Last, FALSE) <= Q(q).ml
+  (LastD > 0 /\ Raises(LastD)) =>
+    \A q \in Ancestors(J(JobOf(D[LastD].p)).queue) :
+      /\ (Q(q).gl # -1 /\ GpuMilli(D[LastD].p) > 0) => QGpu(q, LastD, FALSE) <= Q(q).gl
+      /\ (Q(q).cl # -1 /\ EffCpu(D[LastD].p) > 0)   => QCpu(q, LastD, FALSE) <= Q(q).cl
+      /\ (Q(q).ml # -1 /\ P(D[LastD].p).mem > 0)   => QMem(q, LastD, FALSE) <= Q(q).ml
 C08_NonPreemptibleQuota ==
-  (Last > 0 /\ Raises(Last) /\ J(JobOf(D[Last].p)).preempt = 0) =>
-    \A q \in Ancestors(J(JobOf(D[Last].p)).queue) :
-      /\ (Q(q).gq # -1 /\ GpuMilli(D[Last].p) > 0) => QGpu(q, Last, TRUE) <= Q(q).gq
-      /\ (Q(q).cq # -1 /\ EffCpu(D[Last].p) > 0)   => QCpu(q, Last, TRUE) <= Q(q).cq
-      /\ (Q(q).mq # -1 /\ P(D[Last].p).mem > 0)   => QMem(q, Last, TRUE) <= Q(q).mq
+  (LastD > 0 /\ Raises(LastD) /\ J(JobOf(D[LastD].p)).preempt = 0) =>
+    \A q \in Ancestors(J(JobOf(D[LastD].p)).queue) :
+      /\ (Q(q).gq # -1 /\ GpuMilli(D[LastD].p) > 0) => QGpu(q, LastD, TRUE) <= Q(q).gq
+      /\ (Q(q).cq # -1 /\ EffCpu(D[LastD].p) > 0)   => QCpu(q, LastD, TRUE) <= Q(q).cq
+      /\ (Q(q).mq # -1 /\ P(D[LastD].p).mem > 0)   => QMem(q, LastD, TRUE) <= Q(q).mq
 
 (***************************************************************************)
 (* C16 - priority, then FIFO, between comparable jobs of a leaf queue,     *)
@@ -489,6 +489,30 @@ C04_TopologyOneDomain ==
 C04_MissingTopologyNotPlaced ==
   \A i \in Dec : IsPlacement(i) =>
      LET j == JobOf(D[i].p) IN ("topo" \in DOMAIN J(j) /\ J(j).topo # "") => (HasTopo /\ J(j).topo = scen.topo.name)
+
+(***************************************************************************)
+(* C09 on real sessions: at every level of the queue tree the children's    *)
+(* fair shares (GPU) obey the division contract with total := the parent's  *)
+(* fair share (the cluster total at the top level). Values come from the    *)
+(* proportion plugin of the real session (QueueInfo event), the contract    *)
+(* from FairShareContract.                                                  *)
+(***************************************************************************)
+FS == INSTANCE FairShareContract WITH Scale <- 1000, Slack <- 2
+PresentQ == {q \in Queues : qi.q[q].present = 1}
+ChildrenOf(par) == {c \in PresentQ : Q(c).parent = par}
+ChildSeq(par) == SetToSortSeq(ChildrenOf(par), <)
+FsInput(par) ==
+  LET cs == ChildSeq(par) IN
+  [ total |-> IF par = 0 THEN qi.totG ELSE qi.q[par].fsG, kn |-> qi.k, kd |-> 1000,
+    queues |-> [i \in 1..Len(cs) |-> [des |-> qi.q[cs[i]].desG, lim |-> qi.q[cs[i]].limG, w |-> qi.q[cs[i]].w,
+                                      prio |-> Q(cs[i]).prio, req |-> qi.q[cs[i]].reqG, use |-> qi.q[cs[i]].useG]] ]
+FsResult(par) == LET cs == ChildSeq(par) IN [i \in 1..Len(cs) |-> qi.q[cs[i]].fsG]
+FsWants(par) == LET inp == FsInput(par)  fs == FsResult(par) IN
+                [i \in 1..Len(fs) |-> IF fs[i] < FS!CapReq(inp, i) THEN 1 ELSE 0]
+Parents == {0} \cup {q \in PresentQ : ChildrenOf(q) # {}}
+C09_SessionContract ==
+  qi # <<>> => \A par \in Parents :
+     ChildrenOf(par) # {} => FS!Contract(FsInput(par), FsResult(par), FsWants(par))
 
 (***************************************************************************)
 (* C13 (as observable on the Cache calls of real cycles): committing emits  *)
